@@ -1,10 +1,10 @@
 #!/bin/bash
-# usage: tools/trymut.sh <patch.diff> <ID> [tier]   — applies the patch to /repo, runs the check, always reverts.
+# usage: tools/trymut.sh <patch.diff> <ID> [tier] — runs the check for <ID> against a scratch worktree of /repo's HEAD with the patch applied.
 set -u
-patch=$1; id=$2; tier=${3:-quick}
-cd /repo || exit 2
-if ! git diff --quiet; then echo "repo dirty, refusing"; exit 2; fi
-git apply "$patch" || { echo "patch does not apply"; exit 2; }
-trap 'git -C /repo checkout -- . ; git -C /repo clean -fdq -- . 2>/dev/null' EXIT
-cd /verif && VERIF_REPLAYS_DIR=/verif/.build/mut-replays VERIF_EVIDENCE_DIR=/verif/.build/mut-evidence ./run "$id" "$tier" 2>&1 | cut -c1-500
+patch=$(realpath "$1"); id=$2; tier=${3:-quick}
+wt=$(mktemp -d /tmp/mutrun-XXXXXX); rmdir "$wt"
+git -C /repo worktree add -q --detach "$wt" HEAD || exit 2
+trap 'git -C /repo worktree remove --force "$wt" 2>/dev/null; rm -rf "$wt"' EXIT
+git -C "$wt" apply "$patch" || { echo "patch does not apply"; exit 2; }
+cd /verif && VERIF_REPO="$wt" VERIF_REPLAYS_DIR=/verif/.build/mut-replays VERIF_EVIDENCE_DIR=/verif/.build/mut-evidence ./run "$id" "$tier" 2>&1 | cut -c1-500
 echo "rc=${PIPESTATUS[0]}"
